@@ -12,6 +12,14 @@ CLAIMED = {
     text="For each program the machine compiled with all optimisations off is compared with the machines compiled at -O1/-O2 and with each single optimisation flag by a strict bisimulation certificate (Bisim.dfa_equiv_cert), sound for all inputs and every data semantics (bisim_strict_sound): identical sequences of primitives, tests, yields, finishes, consumed-byte markers and results.",
     note="Program quantifier sampled. The short-circuit pass (-O3), which may legally move actions by one position, needs the buffered relation (BBisim) and is only covered once that is built; `s = \"\"` and `delete s` are identified when comparing across -fuse-delete-for-empty-string. Trusted as for C04.",
     ref="5 C05"),
+ "C06": dict(cat="model_checking", tech="exhaustive forced-state single-step and two-byte-chunk correspondence between the gcc-built parser and the extracted Coq model of the exported machine",
+    text="C06 is a statement about the tie between emitted text and compiled machine, so it is decided by an exhaustive per-program correspondence: every state index x every byte 0..255 (and end-of-input) x several data contexts is stepped once in the gcc-built binary (state forced) and in the extracted Coq model (CSkel.Run over Machine.Sem, the same executable definitions all control-flow theorems are about), plus two-byte chunks from every state and random chunked runs; result code, new state, consumed count, every output's contents/length/terminator and the hook calls with their snapshots are compared. Coq lemmas (ceval_tree_eval, cfeed_go_feed_go) tie the concrete runner to the generic semantics; store_inv_prim proves the capacity invariant for every primitive.",
+    note="Sampled over programs, option sets and data contexts; exhaustive over (state, symbol). gcc and the C semantics of the emitted text are trusted. Steps on which the model says the C behaviour is undefined (overflowing signed arithmetic, reads of indeterminate cells) are skipped and counted.",
+    ref="5 C06"),
+ "C07": dict(cat="translation_validation", tech="Coq-verified regex-vs-machine certificate checker (Brzozowski derivatives) on exported machines",
+    text="For every generated regex (enumerated small surface regexes + random larger ones, text and binary form) the machine the real compiler builds for `parser { /re/; }` is certified against the derivative automaton of the desugared expression by Regex.ReCheck.re_dfa_check, whose soundness theorems (c07_language, c07_run, c07_mismatch_is_first_dead_byte, c07_first_dead_byte_is_reported, c07_end_of_input_not_matched) hold for ALL byte strings; deriv/nullable/void/desugar correctness are proved once. A failed certificate gives a shortest distinguishing string, confirmed on the gcc-built parser.",
+    note="Regex quantifier sampled/enumerated up to a size bound; strings covered by theorem. Trusted: Regex/Surface.v's reading of the dialect (lang), exporter, Machine/Sem.v; extraction for volume with a sample certified in Coq. Two genuine defects are listed as known findings (complementary inverted classes; empty byte class leaves a dead state).",
+    ref="5 C07"),
  "C15": dict(cat="proof", tech="Coq proof over translator-regenerated model (pylite2coq) + CPython correspondence",
     text="Universal theorems (all strings, all digit strings, all 256 bytes) about the CURRENT bodies of _convert_string, _convert_char_const, _convert_int, _create_casei_from and _escape_string, which a fail-closed translator regenerates from /repo/nmfu.py into Gallina on every run; the translated reading is compared with CPython on ~2 700 enumerated inputs per run. A broken proof triggers a search (spec evaluated against the regenerated functions inside Coq, then Python/gcc replay) for a concrete literal.",
     note="Trusted: Coq kernel (vm_compute), translator/pylite2coq.py, Base/PyLite.v's reading of Python, Lit/LitSpec.v (spelling relation, C string-literal lexer). _convert_binary_string is tied by correspondence only; lark tokenisation and gcc are modelled, not verified.",
